@@ -177,6 +177,10 @@ type Run struct {
 	QFailing []string
 	QTotal   int
 	QRan     bool
+	// helpers stand-in (C20)
+	HeFailing []string
+	HeTotal   int
+	HeRan     bool
 	// history log stand-in (C17)
 	HFailing []string
 	HTotal   int
@@ -364,6 +368,14 @@ func verifyRun(opts *RunOpts) (*Run, error) {
 			run.StandinErrs = append(run.StandinErrs, [2]string{"queue", err.Error()})
 		} else {
 			run.QFailing, run.QTotal, run.QRan = f, total, true
+		}
+	}
+	if opts.Prop == "C20" {
+		f, total, err := runBoundedHelpers(opts)
+		if err != nil {
+			run.StandinErrs = append(run.StandinErrs, [2]string{"helpers", err.Error()})
+		} else {
+			run.HeFailing, run.HeTotal, run.HeRan = f, total, true
 		}
 	}
 	if opts.Prop == "C17" {
